@@ -47,10 +47,20 @@ func allMessages(fd protoreflect.FileDescriptor) []protoreflect.MessageDescripto
 }
 
 // loadSchemas returns one schemaInfo per linked set (checked-in packages included).
-func loadSchemas() []*schemaInfo {
+func loadSchemas() []*schemaInfo { return loadSchemasSel(false) }
+
+// modelFreeSets: linked sets the codec / reflection models have no shapes for (vq: messages of an imported proto2 type with
+// explicit-presence scalars and required fields). Only engines that compare implementations with each other, without the
+// extracted model (lib), load them: loadSchemasSel(true).
+var modelFreeSets = map[string]bool{"vq": true}
+
+func loadSchemasSel(withModelFree bool) []*schemaInfo {
 	names := append([]string{"testpb", "test3"}, linkedSets...)
 	var out []*schemaInfo
 	for _, n := range names {
+		if modelFreeSets[n] && !withModelFree {
+			continue
+		}
 		var roots []protoreflect.MessageDescriptor
 		files := setFiles[n]
 		if files == nil {
